@@ -15,20 +15,20 @@ from ..ref import gf2poly as G
 LEVEL = "exploration"
 SIZE_MAX = (1 << 64) - 1
 
-# Input classes on which the examined tree aborts (ASan report / live ASSERT) although the headers admit them.
-# Every class is demonstrated by a bounded number of single-call cases in unit_zm_edge / unit_pp_edge / unit_gf2
-# (a crash costs a worker restart; the runner gives up after 25 per job). While a flag is True the *bulk*
-# generators keep away from the class (and say so in the evidence notes); set a flag to False once the
-# corresponding defect is repaired in /repo and the class joins the bulk again.
+# Input classes on which the snapshot tree aborted (ASan report / live ASSERT) although the headers admit them.
+# All of these defects have been repaired in /repo (commit in the comment), so every flag is False and the classes are
+# part of the bulk streams; each keeps literal regression cases (class labels "regress:...") in unit_zm_edge /
+# unit_pp_edge / unit_gf2. Setting a flag to True keeps the bulk generators away from that class again (useful when a
+# mutant re-introduces the defect: every abort costs a worker restart and the runner gives up after 25 per job).
 AVOID = {
-    "ppDiv:deg(b)=k*B": True,       # ppDiv writes q[n - m + 1] when the top word of b is 1
-    "pp:division-by-1": True,       # ppDiv / ppMod / ppRed with b = 1 (m = 1): out-of-bounds accesses
-    "ppExGCD:even-cofactor": True,  # ASSERT pp_gcd.c (wrong Bezout coefficients with NDEBUG) unless a/x^s, b/x^s both odd
-    "ppExGCD:n<m": True,            # m words copied into [min(n, m)]d
-    "ppMinPoly:a-size": True,       # 2*W_OF_B(l) words of a are read, pp.h declares W_OF_B(2l)
-    "zm:even-modulus-inv": True,    # zmInv / zmDiv -> zzDivMod requires an odd modulus (ASSERT zz_gcd.c)
-    "zm:montR-short-zd": False,     # zero divisors with l < B*n (aborted in zzDoubleMod before zzRedMont was repaired)
-    "gf2:aligned-inv": False,       # gf2Inv / gf2Div read n + 1 words of an n-word element when B | m (repaired: 1b74953)
+    "ppDiv:deg(b)=k*B": False,       # ppDiv wrote q[n - m + 1] when the top word of b is 1 (71b001a)
+    "pp:division-by-1": False,       # ppDiv / ppMod / ppRed with b = 1 (m = 1): out-of-bounds accesses (71b001a)
+    "ppExGCD:even-cofactor": False,  # ASSERT pp_gcd.c / wrong Bezout coefficients unless a/x^s, b/x^s both odd (8531296)
+    "ppExGCD:n<m": False,            # m words copied into [min(n, m)]d (8531296)
+    "ppMinPoly:a-size": False,       # 2*W_OF_B(l) words of a were read, pp.h declares W_OF_B(2l) (dd93304)
+    "zm:even-modulus-inv": False,    # zmInv / zmDiv -> zzDivMod requires an odd modulus (48de5f3)
+    "zm:montR-short-zd": False,      # zero divisors with l < B*n aborted in zzDoubleMod before zzRedMont was repaired
+    "gf2:aligned-inv": False,        # gf2Inv / gf2Div read n + 1 words of an n-word element when B | m (1b74953)
 }
 
 # ----------------------------------------------------------------------------------------------
@@ -99,7 +99,6 @@ class Ring:
             return None
         r = Ring(lib, state, keep)
         r.ret = ret
-        r.need = zm_need(lib, kind, r.n)
         return r
 
     @staticmethod
@@ -117,7 +116,6 @@ class Ring:
             return None
         r = Ring(lib, state, keep)
         r.ret = ret
-        r.need = gf2_need(lib, r.n)
         return r
 
     # raw views
@@ -127,20 +125,9 @@ class Ring:
     def mod_int(self, n1=None):
         return self.lib.rdw(self.q.mod, n1 or self.n)
 
-    def stack(self, exact=False):
-        """Stack for the ring operations. qr.h: the depth is r->deep. On the examined tree several
-        constructors under-report it (the 2n-word product / n-word quotient buffers of zmMul*, zmDivMont2,
-        gf2Mul* are not counted), which the canary cases of unit_zm_edge / unit_gf2 demonstrate with the
-        exact r->deep. The value cases use max(r->deep, depth recomputed from the public _deep functions
-        of the callees), which is again exactly r->deep as soon as r->deep is sufficient."""
-        need = 0 if exact else self.need
-        if need > self.deep:
-            Ring.padded += 1
-        return self.lib.alloc(max(self.deep, need))
-
-    padded = 0
-    need = 0
-
+    def stack(self, exact=True):
+        """stack for the ring operations: exactly r->deep (qr.h)"""
+        return self.lib.alloc(self.deep)
 
     # operations (pointers in, nothing out)
     def from_(self, b, a, st):
@@ -169,30 +156,6 @@ class Ring:
 
     def div(self, b, d, a, st):
         self._div(b, d, a, self.p, st)
-
-
-def zm_need(lib, kind, n):
-    """stack depth the zm ring functions really use, from zm.c's layout and the public zz*_deep()"""
-    W = lib.W
-    mul, sqr = lib.zzMul_deep(n, n), lib.zzSqr_deep(n)
-
-    def ms(red):
-        return 2 * n * W + max(mul, sqr, red)
-    plain = max(ms(lib.zzRed_deep(n)), lib.zzInvMod_deep(n), lib.zzDivMod_deep(n))
-    crand = max(ms(lib.zzRedCrand_deep(n)), lib.zzInvMod_deep(n), lib.zzDivMod_deep(n))
-    barr = max(ms(lib.zzRedBarr_deep(n)), lib.zzInvMod_deep(n), lib.zzDivMod_deep(n))
-    mm = ms(lib.zzRedMont_deep(n))
-    ai = lib.zzAlmostInvMod_deep(n)
-    mont = max(2 * n * W + lib.zzMod_deep(2 * n, n), mm, ai, n * W + max(ai, mm))
-    montR = max(mm, ai, n * W + max(ai, mm))
-    d = {"plain": plain, "crand": crand, "barr": barr, "mont": mont, "montR": montR}
-    return d.get(kind, max(plain, crand, barr, mont))
-
-
-def gf2_need(lib, n):
-    W = lib.W
-    return max(2 * n * W + lib.ppMul_deep(n, n), 2 * n * W + lib.ppSqr_deep(n),
-               (n + 1) * W + lib.ppInvMod_deep(n + 1), (n + 1) * W + lib.ppDivMod_deep(n + 1))
 
 
 # ----------------------------------------------------------------------------------------------
@@ -531,7 +494,7 @@ def ring_case(ctx, ring, alg, kind, x, y, e, epad, do_inv=True, direct=False, ex
     if e is not None and sqr_in_ring:
         m = (e.bit_length() + lib.B - 1) // lib.B + epad
         pe = lib.mkw(e, m)
-        pst = lib.alloc(lib.qrPower_deep(n, m, max(ring.deep, ring.need)))
+        pst = lib.alloc(lib.qrPower_deep(n, m, ring.deep))
         c = lib.outw(n)
         lib.qrPower(c, ex, pe, m, ring.p, pst)
         ok = res("qrPower", c, alg.pow(x, e))
@@ -884,6 +847,8 @@ def unit_zm(ctx):
                     bump(opcls, "zero-divisors")
                 if math.gcd(x, M) == 1:
                     bump(opcls, "x-invertible")
+                    if M % 2 == 0 and not AVOID["zm:even-modulus-inv"]:
+                        bump(opcls, "even-modulus:x-invertible(inv/div judged)")
                 bump(opcls, "kind=" + label)
                 out = []
                 if ti == 0:
@@ -894,22 +859,20 @@ def unit_zm(ctx):
                 for v in (M, M + 1, top):
                     if M <= v <= top:
                         rej.append(v.to_bytes(no, "little"))
-                # inv/div: zzInvMod/zzDivMod need an odd modulus -> even moduli go to the edge unit
+                # inv/div of invertible x are judged by value for every modulus (even ones too, unless avoided)
                 out += ring_case(ctx, ring, alg, label, x, y, e, epad, do_inv=bool(M & 1) or not AVOID["zm:even-modulus-inv"],
                                  direct=(alg.R != 1 and not alg.plain_io), extra_rej=rej)
                 ctx.digest(out)
                 lib.release()
     ctx.note("zm_words", words)
     ctx.note("zm_operands", opcls)
-    ctx.note("stack_padded_calls", Ring.padded)
 
 
 def unit_zm_edge(ctx):
-    """Ring cases that abort on the examined tree or have an unspecified value; one library call per case so
-    that every abort is attributed to exactly one call. Deliberately bounded (each abort costs a worker restart).
-    inv/div of 0 in rings with ordinary/Crandall/Barrett reduction: zzDivMod(a = 0) of the snapshot tree never
-    returned (infinite loop); the jobs of this unit therefore carry "timeout" (the runner reports a hang as
-    inconclusive)."""
+    """Literal regression cases of the ring layer, one library call per case (so that an abort is attributed to
+    exactly one call), class labels "regress:zm:<defect>": every case aborted, hung or gave a wrong value on the
+    snapshot tree. Non-invertible elements have an unspecified value (qr.h) and are run for termination only.
+    zzDivMod(a = 0) of the snapshot never returned: the jobs of this unit carry "timeout"."""
     lib = ctx.lib
     W = lib.W
     p1, p2, p3 = 2 ** 61 - 1, 2 ** 89 - 1, 2 ** 127 - 1
@@ -941,12 +904,24 @@ def unit_zm_edge(ctx):
         cases.append(("montR-short-zd", "montR", M, "mul", x, y, l, False))
         if M != 15:
             cases.append(("montR-short-zd", "montR", M, "sqr", x, y, l, False))
+    # zzRedMont (regular edition): product = k * mod returned mod instead of 0
+    cases += [("zzRedMont-mask", "mont", 9, "mul", 3, 6, None, False), ("zzRedMont-mask", "montR", 9, "sqr", 6, 6, None, False),
+              ("zzRedMont-mask", "mont", p3 * p3, "mul", 3 * p3, 7 * p3, None, False), ("zzRedMont-mask", "auto", p3 * p2, "mul", 5 * p3, 9 * p2, None, False)]
+    # zzRedBarr (regular edition): Barrett estimate off by 2 and a[n] == 2 -> subtraction mask 0x..FE
+    MB4, MB8 = 2 ** 128 - 2 ** 64 + 1, 2 ** 256 - 2 ** 128 + 1
+    cases += [("zzRedBarr-mask", "barr", MB4, "mul", 0xfffffffffffffffefff830a1f34e1d64, 0xfffffffffffffffefffffffffe82650a, None, False),
+              ("zzRedBarr-mask", "barr", MB4, "mul", 0xfffffffffffffffefff8000000000001, 0xfffffffff7ffffff0000000000000001, None, False),
+              ("zzRedBarr-mask", "barr", MB8, "mul", MB8 - (37 * 2 ** 64 + 12345), MB8 - (41 * 2 ** 64 + 777), None, False),
+              ("zzRedBarr-mask", "barr", MB8, "sqr", MB8 - (37 * 2 ** 64 + 12345), 1, None, False),
+              ("zzRedBarr-mask", "barr", 2 ** 384 - 2 ** 192 + 1, "mul",
+               int("f" * 47 + "e" + "fffffffffff83efcc11ae7d71d48f0525ab5c23d0c2e048a", 16),
+               int("f" * 47 + "e" + "fffffffffffffffff93c48dc496ac301ed7c69b6f5f11879", 16), None, False)]
     cases = [c for i, c in enumerate(cases) if i % 2 == part]
     for cat, kind, M, op, x, y, l, exact in cases:
         no = blen(M)
         if kind == "crand" and not crand_ok(M, W):
             continue
-        if not ctx.case(["edge", cat, kind, M, op, x, y, l], "zm-edge:" + cat):
+        if not ctx.case(["edge", cat, kind, M, op, x, y, l], "regress:zm:" + {"deep": "declared-deep", "even": "even-modulus-inv", "noninv": "non-invertible"}.get(cat, cat)):
             continue
         n = (no + W - 1) // W
         if kind == "montR":
@@ -985,7 +960,6 @@ def unit_zm_edge(ctx):
                 viol(ctx, "qr%s@%s:%s" % (op.capitalize(), kind, "not-reduced" if got >= M else "value"),
                      "edge case %s" % cat, {"mod": hx(M), "x": hx(x), "y": hx(y), "l": l, "got": hx(got), "expected": hx(exp)})
         lib.release()
-    ctx.note("stack_padded_calls", Ring.padded)
 
 
 # ----------------------------------------------------------------------------------------------
@@ -1163,10 +1137,9 @@ def unit_pp_arith(ctx):
                 # tree -- demonstrated, in bounded number, by unit_pp_edge; the bulk keeps to the other divisors
                 b |= 2 << ((m - 1) * B)
             inplace = alias == 0 and n >= m
-            rn = fn == "ppDiv" and alias == 1 and n > m          # header-literal remainder size [n]r
             cls = "%s:%s:%s" % (fn, "n<m" if n < m else "n=m" if n == m else "n>m",
                                 "top=1" if b >> ((m - 1) * B) == 1 else "topbit" if b >> (m * B - 1) else "top-other")
-            if not ctx.case([fn, n, a, m, b, inplace, rn], cls + (":r=a" if inplace else "")):
+            if not ctx.case([fn, n, a, m, b, inplace], cls + (":r=a" if inplace else "")):
                 continue
             bump(hist, "%s:deg(a)%sdeg(b)" % (fn, "<" if a.bit_length() < b.bit_length() else ">="))
             q_exp, r_exp = G.divmod_(a, b)
@@ -1174,15 +1147,12 @@ def unit_pp_arith(ctx):
             st = pp_stack(lib, fn, n, m)
             if fn == "ppDiv":
                 pq = lib.outw(n - m + 1)
-                pr = pa if inplace else lib.outw(n if rn else m)
+                pr = pa if inplace else lib.outw(m)               # pp.h: [m]r
                 lib.ppDiv(pq, pr, pa, n, pb, m, st)
                 gq, gr = lib.rdw(pq, n - m + 1), lib.rdw(pr, m)
                 ctx.digest(gq, gr)
                 if gq != q_exp or gr != r_exp:
                     pbad(ctx, fn, "alias:r=a" if inplace else "value", {"a": a, "n": n, "b": b, "m": m, "q": gq, "r": gr, "q_expected": q_exp, "r_expected": r_exp})
-                elif rn and lib.rdw(pr, n) != r_exp:
-                    # pp.h declares the remainder of ppDiv as [n]r; the function writes m words only
-                    pbad(ctx, fn, "size:r-declared-[n]-only-[m]-words-written", {"n": n, "m": m, "a": a, "b": b, "r_as_n_words": lib.rdw(pr, n), "expected": r_exp})
             else:
                 pr = pa if inplace else lib.outw(m)
                 lib.ppMod(pr, pa, n, pb, m, st)
@@ -1570,35 +1540,15 @@ def small_irreducibles(maxdeg):
     return out
 
 
-def irred_need(lib, n):
-    """stack really used by ppIsIrred(a, n): h, d (n words each) + callees; ppIsIrred_deep(n) of the examined tree
-    counts only the 2n words"""
-    return 2 * n * lib.W + max(lib.ppGCD_deep(n, n), lib.ppSqrMod_deep(n))
-
-
-def minpoly_need(lib, l):
-    """stack really used by ppMinPoly(b, a, l): its own 8n + 2m + 5 words + the callees ppDiv (not counted by
-    ppMinPoly_deep of the examined tree) and ppAddMulW"""
-    B, W = lib.B, lib.W
-    n, m = (l + B - 1) // B, (l + B) // B
-    return (8 * n + 2 * m + 5) * W + max(lib.ppAddMulW_deep(m), lib.ppDiv_deep(2 * n + 1, 2 * n) if n else 0)
-
-
 def unit_pp_irred(ctx):
     """ppIsIrred, ppMinPoly, ppMinPolyMod"""
     lib, rng, P = ctx.lib, ctx.rng, ctx.params
     W, B = lib.W, lib.B
     chunk, nchunks = P["chunk"], P["nchunks"]
     hist = {}
-    padded = 0
-    mp_padded = 0
 
     def isirred(f, n, label):
-        nonlocal padded
-        st_decl, st_need = lib.ppIsIrred_deep(n), irred_need(lib, n) if f > 1 else 0
-        padded += st_need > st_decl
-        got = bool(lib.ppIsIrred(lib.mkw(f, n), n, lib.alloc(max(st_decl, st_need))))
-        return got
+        return bool(lib.ppIsIrred(lib.mkw(f, n), n, pp_stack(lib, "ppIsIrred", n)))
 
     # (1) all polynomials of degree <= 10: brute-force oracle, Rabin model cross-checked
     small = []
@@ -1707,7 +1657,7 @@ def unit_pp_irred(ctx):
         na = max(na_hdr, na_lib) if AVOID["ppMinPoly:a-size"] else na_hdr
         if garbage and na * B > N:
             a |= (garbage << N) & ((1 << (na * B)) - 1)
-        cls = "ppMinPoly:%s%s" % (mode, ":a-padded" if na > na_hdr else "")
+        cls = "ppMinPoly:%s%s" % (mode, ":2W(l)>W(2l)" if na_lib > na_hdr else "")
         if not ctx.case(["ppMinPoly", l, a, na], cls):
             continue
         Lm, g = G.minpoly_seq(seq)
@@ -1716,9 +1666,7 @@ def unit_pp_irred(ctx):
         bump(hist, "ppMinPoly:l%%B=%s" % ("0" if l % B == 0 else "<=B/2" if l % B <= B // 2 else ">B/2"))
         nb = (l + 1 + B - 1) // B
         pb_ = lib.outw(nb)
-        sd, sn = lib.ppMinPoly_deep(l), minpoly_need(lib, l)
-        mp_padded += sn > sd
-        lib.ppMinPoly(pb_, lib.mkw(a, na), l, lib.alloc(max(sd, sn)))
+        lib.ppMinPoly(pb_, lib.mkw(a, na), l, pp_stack(lib, "ppMinPoly", l))
         got = lib.rdw(pb_, nb)
         if defined:
             ctx.digest(got)
@@ -1764,10 +1712,7 @@ def unit_pp_irred(ctx):
         if irr and a and not G.is_irreducible(exp):
             raise Harness("minpoly_mod model: minimal polynomial over a field must be irreducible")
         pb_ = lib.outw(n)
-        sd = lib.ppMinPolyMod_deep(n)
-        sn = 3 * n * W + max(lib.ppMulMod_deep(n), minpoly_need(lib, dm))
-        mp_padded += sn > sd
-        lib.ppMinPolyMod(pb_, lib.mkw(a, n), lib.mkw(md, n), n, lib.alloc(max(sd, sn)))
+        lib.ppMinPolyMod(pb_, lib.mkw(a, n), lib.mkw(md, n), n, pp_stack(lib, "ppMinPolyMod", n))
         got = lib.rdw(pb_, n)
         ctx.digest(got)
         if got != exp:
@@ -1775,13 +1720,12 @@ def unit_pp_irred(ctx):
                  {"a": a, "mod": md, "n": n, "got": got, "expected": exp})
         lib.release()
     ctx.note("pp_irred", hist)
-    ctx.note("ppIsIrred_stack_padded_calls", padded)
-    ctx.note("ppMinPoly_stack_padded_calls", mp_padded)
 
 
 def unit_pp_edge(ctx):
-    """pp.h inputs / declared sizes on which the examined tree aborts (ASan, ASSERT): one call per case, bounded
-    number (every abort costs a worker restart). The bulk units avoid exactly these classes and say so."""
+    """Literal regression cases of pp.h ("regress:pp:<defect>"): inputs / declared sizes on which the snapshot tree
+    aborted (ASan, ASSERT) or returned wrong values; one call per case. The ppMinPolyMod cases include the
+    unrepaired reducible-modulus witness (known finding ppMinPolyMod:value:reducible-mod)."""
     lib = ctx.lib
     W, B = lib.W, lib.B
     part = ctx.params.get("part", 0)
@@ -1805,10 +1749,25 @@ def unit_pp_edge(ctx):
               ("ppIsIrred", 1, 0b110), ("ppIsIrred", 1, 1),
               ("ppMinPoly:a", 1, 0b11), ("ppMinPoly:a", B + 1, 0x5A5A5A5A5),
               ("ppMinPoly:deep", 2 * B, (1 << (4 * B)) - 1), ("ppMinPoly:deep", 3, 0b101101),
-              ("ppMinPolyMod", 1, 0b10, 0b1011), ("ppMinPolyMod", wlen(f163, B), 0b10, f163), ("ppMinPolyMod", 1, 0b110, 0b11111)]
+              ("ppMinPolyMod", 1, 0b10, 0b1011), ("ppMinPolyMod", wlen(f163, B), 0b10, f163), ("ppMinPolyMod", 1, 0b110, 0b11111),
+              ("ppMinPolyMod", 1, 0b10, 0b110), ("ppMinPolyMod", 1, 0b110, 0b11011)]
     for c in C:
         fn = c[0]
-        if not ctx.case(["pp-edge"] + list(c), "pp-edge:" + fn):
+        if fn in ("ppDiv", "ppMod"):
+            label = "division-by-1" if c[4] == 1 else "ppDiv-deg(b)=kB"
+        elif fn == "ppRed":
+            label = "division-by-1"
+        elif fn == "ppExGCD":
+            label = "ppExGCD-n<m" if c[1] < c[3] else "ppExGCD-even-cofactor"
+        elif fn == "ppIsIrred":
+            label = "ppIsIrred-declared-deep"
+        elif fn == "ppMinPoly:a":
+            label = "ppMinPoly-a-size"
+        elif fn == "ppMinPoly:deep":
+            label = "ppMinPoly-declared-deep"
+        else:
+            label = "ppMinPolyMod"
+        if not ctx.case(["pp-edge"] + list(c), "regress:pp:" + label):
             continue
         if fn in ("ppDiv", "ppMod"):
             _, n, a, m, b = c
@@ -1861,12 +1820,8 @@ def unit_pp_edge(ctx):
             Lm, g = G.minpoly_seq(seq)
             nb = (l + B) // B
             pb_ = lib.outw(nb)
-            if fn.endswith(":a"):
-                # [W_OF_B(2l)]a exactly as declared; sufficient stack
-                st = lib.alloc(max(lib.ppMinPoly_deep(l), minpoly_need(lib, l)))
-                lib.ppMinPoly(pb_, lib.mkw(a, na_hdr), l, st)
-            else:
-                lib.ppMinPoly(pb_, lib.mkw(a, max(na_hdr, na_lib)), l, pp_stack(lib, "ppMinPoly", l))
+            # [W_OF_B(2l)]a and ppMinPoly_deep(l) exactly as declared
+            lib.ppMinPoly(pb_, lib.mkw(a, na_hdr), l, pp_stack(lib, "ppMinPoly", l))
             got = lib.rdw(pb_, nb)
             if 2 * Lm <= 2 * l:
                 ctx.digest(got)
@@ -1893,10 +1848,6 @@ REDUCIBLE = [(71, 5, 0, 0), (97, 7, 0, 0), (131, 7, 0, 0), (163, 7, 6, 2), (233,
              (73, 5, 3, 1), (409, 86, 0, 0), (192, 7, 3, 1)]
 
 
-def gf2_valid_need(lib, n):
-    return (n + 1) * lib.W + max(lib.ppIsIrred_deep(n + 1), irred_need(lib, n + 1))
-
-
 def unit_gf2(ctx):
     lib, rng, P = ctx.lib, ctx.rng, ctx.params
     W, B = lib.W, lib.B
@@ -1904,12 +1855,11 @@ def unit_gf2(ctx):
     hist = {}
     fields = [p4 for i, p4 in enumerate(FIELDS) if i % nchunks == chunk]
     red = [p4 for i, p4 in enumerate(REDUCIBLE) if i % nchunks == chunk]
-    n_deep_canary = n_aligned_canary = 0
     for p4 in fields + red:
         m = p4[0]
         f = p4_poly(p4)
         irr = p4 in fields
-        draws = [(rng.getrandbits(m), rng.getrandbits(m), rng.getrandbits(64), rng.getrandbits(192)) for _ in range(per)]
+        draws = [(rng.getrandbits(m), rng.getrandbits(m), rng.getrandbits(64), rng.getrandbits(192)) for _ in range(max(2, per))]
         if not gf2_admissible(p4, B):
             # e.g. m - k < 64: a 32-bit-word-only field
             bump(hist, "skipped:not-admissible-for-B=%d" % B)
@@ -1935,13 +1885,12 @@ def unit_gf2(ctx):
             op, dg = bool(lib.gf2IsOperable(fld.p)), lib.gf2Deg(fld.p)
             if not op or dg != m:
                 pbad(ctx, "gf2IsOperable", "return", {"p": str(p4), "operable": op, "deg": dg})
-            sd, sn = lib.gf2IsValid_deep(fld.n), gf2_valid_need(lib, fld.n)
-            val = bool(lib.gf2IsValid(fld.p, lib.alloc(max(sd, sn))))
+            val = bool(lib.gf2IsValid(fld.p, lib.alloc(lib.gf2IsValid_deep(fld.n))))
             if val != irr:
                 pbad(ctx, "gf2IsValid", "return", {"p": str(p4), "got": val, "irreducible": irr})
             ctx.digest(obs, op, dg, val)
             lib.release()
-        if ctx.case(["gf2IsValid:declared-deep", list(p4)], "gf2:valid:exact-deep"):
+        if ctx.case(["gf2IsValid:declared-deep", list(p4)], "regress:gf2:IsValid-declared-deep"):
             fld = Ring.gf2(lib, p4)
             val = bool(lib.gf2IsValid(fld.p, lib.alloc(lib.gf2IsValid_deep(fld.n))))
             ctx.digest(val)
@@ -1950,8 +1899,7 @@ def unit_gf2(ctx):
             lib.release()
         if not irr:
             continue            # \expect of the field operations (correct description) does not hold
-        n_deep_canary += 1
-        if n_deep_canary <= 2 and ctx.case(["gf2:declared-deep", list(p4)], "gf2:ops:exact-deep"):
+        if ctx.case(["gf2:declared-deep", list(p4)], "regress:gf2:declared-deep"):
             # mul / sqr / inv / div with exactly f->deep
             fld = Ring.gf2(lib, p4)
             x, y = draws[0][0] | 1, draws[0][1]
@@ -1970,12 +1918,11 @@ def unit_gf2(ctx):
                 pbad(ctx, "gf2", "value:exact-deep", {"p": str(p4), "x": x, "y": y})
             lib.release()
         aligned = m % B == 0
-        n_aligned_canary += aligned
-        if aligned and n_aligned_canary <= 1:
+        if aligned:
             # m multiple of B: gf2Inv / gf2Div pass the n-word elements to ppInvMod / ppDivMod as (n + 1)-word
             # operands (read past the element on the examined tree): one call per case here, none in the bulk
             for op in ("inv", "div"):
-                if not ctx.case(["gf2:" + op, list(p4)], "gf2:%s:m%%B=0" % op):
+                if not ctx.case(["gf2:" + op, list(p4)], "regress:gf2:aligned-%s" % op):
                     continue
                 fld = Ring.gf2(lib, p4)
                 x, y = draws[1][0] | 2, draws[1][1]
@@ -1996,6 +1943,15 @@ def unit_gf2(ctx):
         cat = [0, 1, 2, (1 << m) - 1, 1 << (m - 1), (1 << (m - 1)) | 1, 3, (1 << m) - 2]
         top = (1 << (8 * no)) - 1
         rej = [v.to_bytes(no, "little") for v in ((1 << m), (1 << m) | 1, top, 1 << (8 * no - 1)) if v <= top and v >> m]
+        if rej and ctx.case(["gf2:from-range", list(p4)], "regress:gf2:from-range"):
+            # gf2IsIn of the snapshot compared numerically with the modulus: x^m (+ small) passed as an element
+            fld = Ring.gf2(lib, p4)
+            st = fld.stack()
+            got = [int(bool(fld.from_(lib.outw(n), lib.mk(code), st))) for code in rej]
+            ctx.digest(got)
+            if any(got):
+                pbad(ctx, "qrFrom@gf2", "accepts-out-of-range", {"p": str(p4), "codes": str([c.hex() for c in rej]), "returns": str(got)})
+            lib.release()
         for ci, (rx, ry, s, er) in enumerate(draws):
             if ci == 0:
                 x, y = (1 << m) - 1, (1 << m) - 1
@@ -2018,7 +1974,7 @@ def unit_gf2(ctx):
             fld = Ring.gf2(lib, p4)
             out = ring_case(ctx, fld, alg, "gf2", x, y, e, epad, do_inv=not (aligned and AVOID["gf2:aligned-inv"]), direct=False, extra_rej=rej)
             # trace
-            tdeep = lib.gf2Tr_deep(n, max(fld.deep, fld.need))
+            tdeep = lib.gf2Tr_deep(n, fld.deep)
             tr = lib.gf2Tr(lib.mkw(x, n), fld.p, lib.alloc(tdeep))
             te = alg.trace(x)
             if te not in (0, 1):
@@ -2029,7 +1985,7 @@ def unit_gf2(ctx):
             # z^2 + x z + y = 0 (m odd)
             if m % 2 == 1:
                 z = lib.outw(n)
-                ret = lib.gf2QSolve(z, lib.mkw(x, n), lib.mkw(y, n), fld.p, lib.alloc(lib.gf2QSolve_deep(n, max(fld.deep, fld.need))))
+                ret = lib.gf2QSolve(z, lib.mkw(x, n), lib.mkw(y, n), fld.p, lib.alloc(lib.gf2QSolve_deep(n, fld.deep)))
                 if x == 0 or y == 0:
                     exists = True
                 else:
@@ -2048,7 +2004,6 @@ def unit_gf2(ctx):
             ctx.digest(out)
             lib.release()
     ctx.note("gf2", hist)
-    ctx.note("stack_padded_calls", Ring.padded)
 
 
 def jobs(tier, scale=1.0):
